@@ -6,6 +6,8 @@
 #include <bitset>
 #include <cstdio>
 #include <cstring>
+#include <cstdint>
+#include <unistd.h>
 #include <fstream>
 #include <iostream>
 #include <locale>
@@ -92,6 +94,59 @@ static std::string query(const ParameterTree& t, const std::string& k)
   return r;
 }
 
+static std::string tmpFile()
+{
+  static std::string name = "/tmp/c12_harness_" + std::to_string((long) getpid()) + ".ini";
+  return name;
+}
+
+// the remaining public members on the tree obtained for a case (op "inif")
+static std::string fullApi(const ParameterTree& pt, const std::vector<std::string>& qs)
+{
+  std::string out;
+  const std::string before = "";
+  std::size_t n = 0;
+  for (const auto& k : qs) {
+    if (n++ >= 3) break;
+    out += " c";
+    try { out += "x" + hex(pt.get(k, "DFLT")); } catch (const Dune::RangeError&) { out += "E"; }
+    out += "o";   // const operator[] directly (get() tests hasKey first)
+    try { out += "x" + hex(pt[k]); } catch (const Dune::RangeError&) { out += "E"; }
+    out += "T";
+    try { out += [&]{ const ParameterTree& s = pt.sub(k, true); return std::string("{") + std::to_string(s.getValueKeys().size()) + "," + std::to_string(s.getSubKeys().size()) + "}"; }(); }
+    catch (const Dune::RangeError&) { out += "E"; }
+    out += "F";
+    try { const ParameterTree& s = pt.sub(k, false); out += "{" + std::to_string(s.getValueKeys().size()) + "," + std::to_string(s.getSubKeys().size()) + "}"; }
+    catch (const Dune::RangeError&) { out += "E"; }
+    // non-const sub() on a copy: creates the path (possibly partially before a RangeError)
+    ParameterTree cp(pt);
+    out += "M";
+    try { ParameterTree& s = cp.sub(k); out += std::to_string(s.getValueKeys().size()); } catch (const Dune::RangeError&) { out += "E"; }
+    std::string d; try { d = std::string(cp.hasSub(k) ? "1" : "0"); } catch (const Dune::RangeError&) { d = "E"; }
+    out += d + "#" + std::to_string(cp.getSubKeys().size());
+  }
+  // report of the tree, and of a subtree (const sub of the first query)
+  { std::ostringstream os; pt.report(os, "P:"); out += " R=" + hex(os.str()); }
+  if (!qs.empty()) {
+    try { std::ostringstream os; pt.sub(qs[0]).report(os); out += " r=" + hex(os.str()); } catch (const Dune::RangeError&) { out += " r=E"; }
+  }
+  // copy construction, assignment, move: deep and independent of later changes of the source
+  {
+    std::string d0 = dump(pt);
+    ParameterTree a(pt), b, src(pt);
+    b["junk"] = "1";
+    b = pt;
+    try { src["zz.new"] = "1"; src.sub("zz2"); } catch (const Dune::RangeError&) {}
+    ParameterTree m(std::move(a));
+    ParameterTree m2; m2 = std::move(b);
+    std::string c = (dump(m) == d0 ? "" : "move-ctor ") + std::string(dump(m2) == d0 ? "" : "move-assign ") + (dump(pt) == d0 ? "" : "source ");
+    ParameterTree self(pt); self = *&self;
+    if (dump(self) != d0) c += "self-assign ";
+    out += " C=" + (c.empty() ? std::string("ok") : c);
+  }
+  return out;
+}
+
 static void readDoc(const std::string& doc, ParameterTree& pt, bool ow)
 {
   std::istringstream in(doc);
@@ -99,6 +154,12 @@ static void readDoc(const std::string& doc, ParameterTree& pt, bool ow)
 }
 
 template<class T> static std::string show(const T& v) { return std::to_string(v); }
+static std::string show(const double& v)   // exact: the IEEE bit pattern
+{
+  std::uint64_t b; std::memcpy(&b, &v, sizeof b);
+  char buf[32]; std::snprintf(buf, sizeof buf, "d:%016llx", (unsigned long long) b); return buf;
+}
+static std::string show(const char& v) { return "x" + std::string(1, "0123456789abcdef"[(unsigned char) v >> 4]) + std::string(1, "0123456789abcdef"[v & 15]); }
 static std::string show(const bool& v) { return v ? "1" : "0"; }
 static std::string show(const std::string& v) { return "x" + hex(v); }
 template<class T> static std::string showSeq(const T& v)
@@ -109,6 +170,11 @@ template<class T> static std::string showSeq(const T& v)
 }
 template<class T, std::size_t n> static std::string show(const std::array<T, n>& v) { return showSeq(v); }
 template<class T> static std::string show(const std::vector<T>& v) { return showSeq(v); }
+template<class T, int n> static std::string show(const Dune::FieldVector<T, n>& v) { return showSeq(v); }
+static std::string show(const std::vector<bool>& v)
+{
+  std::string r = "["; for (std::size_t i = 0; i < v.size(); ++i) { if (i) r += ","; r += v[i] ? "1" : "0"; } return r + "]";
+}
 template<std::size_t n> static std::string show(const std::bitset<n>& v)
 {
   std::string r; for (std::size_t i = 0; i < n; ++i) r += v[i] ? "1" : "0"; return r;
@@ -140,6 +206,38 @@ static std::string getCase(const std::string& ty, const std::string& v)
   if (ty == "vec") return getAs<std::vector<int>>(v);
   if (ty == "vecs") return getAs<std::vector<std::string>>(v);
   if (ty == "bits4") return getAs<std::bitset<4>>(v);
+  if (ty == "bits1") return getAs<std::bitset<1>>(v);
+  if (ty == "bits8") return getAs<std::bitset<8>>(v);
+  if (ty == "bits0") return getAs<std::bitset<0>>(v);
+  if (ty == "short") return getAs<short>(v);
+  if (ty == "ushort") return getAs<unsigned short>(v);
+  if (ty == "char") return getAs<char>(v);
+  if (ty == "dbl") return getAs<double>(v);
+  if (ty == "arr0") return getAs<std::array<int, 0>>(v);
+  if (ty == "arr2") return getAs<std::array<int, 2>>(v);
+  if (ty == "arrs2") return getAs<std::array<std::string, 2>>(v);
+  if (ty == "fv3") return getAs<Dune::FieldVector<int, 3>>(v);
+  if (ty == "fv1l") return getAs<Dune::FieldVector<long, 1>>(v);
+  if (ty == "fv2d") return getAs<Dune::FieldVector<double, 2>>(v);
+  if (ty == "vecd") return getAs<std::vector<double>>(v);
+  if (ty == "vecu") return getAs<std::vector<unsigned int>>(v);
+  if (ty == "vecl") return getAs<std::vector<long>>(v);
+  if (ty == "vecb") return getAs<std::vector<bool>>(v);
+  // get(key, default) overloads: template (bool, double), std::string, const char*
+  if (ty.size() > 3 && ty.compare(ty.size() - 3, 2, "or") == 0) {
+    ParameterTree pt;
+    if (ty.back() == '1') pt["k"] = v;
+    const ParameterTree& cpt = pt;
+    std::string base = ty.substr(0, ty.size() - 3);
+    try {
+      if (base == "bool") return "OK " + show(cpt.get("k", true));
+      if (base == "long") return "OK " + show(cpt.get("k", 77L));
+      if (base == "str") return "OK " + show(cpt.get("k", std::string("DFLT")));
+      if (base == "cstr") return "OK " + show(cpt.get("k", "DFLT"));
+      if (base == "vec") return "OK " + show(cpt.get("k", std::vector<int>{7, 8}));
+    }
+    catch (const Dune::RangeError&) { return "EXC RangeError"; }
+  }
   if (ty == "intor0" || ty == "intor1") {
     ParameterTree pt;
     if (ty == "intor1") pt["k"] = v;
@@ -168,14 +266,45 @@ int main(int argc, char** argv)
     std::vector<std::string> t = fields(line);
     std::string out;
     if (t.empty()) out = "UNKNOWN-OP";
-    else if (t[0] == "ini") {
+    else if (t[0] == "ini" || t[0] == "inif") {
       bool ow = t[1] == "1";
       ParameterTree pt;
       guarded([&] { readDoc(strField(t[2]), pt, true); });
+      ParameterTree pre(pt);
       std::string st = guarded([&] { readDoc(strField(t[3]), pt, ow); });
-      out = st + " " + dump(pt) + " Q:";
+      std::string obs = st + " " + dump(pt);
+      out = obs + " Q:";
       bool first = true;
-      for (const auto& k : listField(t[4])) { if (!first) out += ","; first = false; out += query(pt, k); }
+      std::vector<std::string> qs = listField(t[4]);
+      for (const auto& k : qs) { if (!first) out += ","; first = false; out += query(pt, k); }
+      if (t[0] == "inif") {
+        out += fullApi(pt, qs);
+        // the other readINITree overloads must do the same as the one above
+        std::string doc = strField(t[3]), ov;
+        { std::ofstream f(tmpFile(), std::ios::binary); f.write(doc.data(), (std::streamsize) doc.size()); }
+        { ParameterTree p2(pre); std::string s2 = guarded([&] { ParameterTreeParser::readINITree(tmpFile(), p2, ow); });
+          if (s2 + " " + dump(p2) != obs) ov += "file+tree "; }
+        { ParameterTree p2(pre); std::istringstream in(doc);
+          std::string s2 = guarded([&] { ParameterTreeParser::readINITree(in, p2, "a source name", ow); });
+          if (s2 + " " + dump(p2) != obs) ov += "stream+srcname "; }
+        { // the overloads that return a tree start from an empty one and overwrite
+          ParameterTree e; std::string s0 = guarded([&] { readDoc(doc, e, true); }); std::string o0 = s0 + " " + dump(e);
+          ParameterTree r1, r2;
+          std::string s1 = guarded([&] { std::istringstream in(doc); r1 = ParameterTreeParser::readINITree(in); });
+          std::string s2 = guarded([&] { r2 = ParameterTreeParser::readINITree(tmpFile()); });
+          if (s1 != s0 || (s0 == "ok" && s1 + " " + dump(r1) != o0)) ov += "stream-returning ";
+          if (s2 != s0 || (s0 == "ok" && s2 + " " + dump(r2) != o0)) ov += "file-returning ";
+        }
+        out += " ov=" + (ov.empty() ? std::string("ok") : ov);
+      }
+    }
+    else if (t[0] == "nofile") {
+      std::string name = "/nonexistent/c12/" + strField(t[1]);
+      ParameterTree pt;
+      std::string a, b;
+      try { ParameterTreeParser::readINITree(name, pt, true); a = "ok"; } catch (const Dune::IOError&) { a = "IOError"; } catch (const Dune::Exception&) { a = "Dune::Exception"; }
+      try { ParameterTree r = ParameterTreeParser::readINITree(name); b = "ok"; } catch (const Dune::IOError&) { b = "IOError"; } catch (const Dune::Exception&) { b = "Dune::Exception"; }
+      out = a + " " + b + " " + dump(pt);
     }
     else if (t[0] == "get") out = getCase(t[1], strField(t[2]));
     else if (t[0] == "opt" || t[0] == "nopt") {
@@ -194,12 +323,19 @@ int main(int argc, char** argv)
         guarded([&] { readDoc(strField(t[6]), pt, true); });
         std::vector<std::string> kw = listField(t[4]);
         unsigned req = (unsigned) std::stoul(t[1]);
-        st = guarded([&] { ParameterTreeParser::readNamedOptions((int) store.size(), av.data(), pt, kw, req, t[2] == "1", t[3] == "1"); });
+        // help strings (only used for messages): a vector shorter, equal or longer than the keyword list
+        std::vector<std::string> help;
+        for (unsigned i = 0; i < req % 5; ++i) help.push_back(i % 2 ? "" : "help text");
+        if (req % 5 == 0)
+          st = guarded([&] { ParameterTreeParser::readNamedOptions((int) store.size(), av.data(), pt, kw, req, t[2] == "1", t[3] == "1"); });
+        else
+          st = guarded([&] { ParameterTreeParser::readNamedOptions((int) store.size(), av.data(), pt, kw, req, t[2] == "1", t[3] == "1", help); });
       }
       out = st + " " + dump(pt);
     }
     else out = "UNKNOWN-OP";
     std::cout << out << std::endl;
   }
+  std::remove(tmpFile().c_str());
   return 0;
 }
